@@ -214,3 +214,36 @@ func VerifC08_Lemma_Gradient2Ratio() {
 	}
 	verif.Reach("end")
 }
+
+// VerifC08_Gradient2_Grid: Gradient2 from a grid of concrete prior states (estimate, long-term
+// average value / warm-up count) with the two final RTTs, the in-flight count and the drop flag
+// symbolic: with the state concrete the update is linear in everything but the single quotient
+// (updated average)/(sample).  Measured: 534 of 544 obligations are decided (unsat) for the quick
+// grid, 10 (the paths with the gradient strictly inside (0.5, 1)) stay unknown - so this harness is
+// bug-hunting only as well (claims=none, thorough tier): its undecided obligations are listed in the
+// evidence.
+//
+//verif:harness property=C08 theory=real tier=thorough timeout=60 claims=none
+func VerifC08_Gradient2_Grid() {
+	ests := []float64{20, 57.5, 200}
+	vals := []float64{1e6, 5e7, 40}
+	cnts := []int{10, 3, 0}
+	est := ests[verif.Choice("est", verif.Tiered(2, len(ests)))]
+	val := vals[verif.Choice("longValue", verif.Tiered(2, len(vals)))]
+	cnt := cnts[verif.Choice("longCount", verif.Tiered(2, len(cnts)))]
+	mk := func() *Gradient2Limit {
+		l, _ := NewGradient2Limit("g2", 20, 200, 20, nil, 0.2, 600, nil, nil)
+		l.estimatedLimit = est
+		l.longRTT = measurements.VerifExpAvg(val, val*float64(cnt), 600, 10, cnt)
+		return l
+	}
+	a, b := mk(), mk()
+	lo, hi := verif.Int64("rtt_lo"), verif.Int64("rtt_hi")
+	inflight := verif.Int("inflight")
+	drop := verif.Bool("drop")
+	verif.Assume(lo >= 1 && lo < hi && hi <= 1<<40 && inflight >= 0 && inflight < 1<<31)
+	a.OnSample(0, lo, inflight, drop)
+	b.OnSample(0, hi, inflight, drop)
+	verif.Assert("gradient2-grid-monotone-rtt", b.estimatedLimit <= a.estimatedLimit*noise)
+	verif.Reach("end")
+}
